@@ -87,3 +87,78 @@ func c17LoadFaults(w *run.Worker) {
 		}
 	}
 }
+
+// C17 (E2): load-time faults three use() levels away. s.p uses m.p uses l.p; l.p does not load (syntax
+// fault, check fault, a use of a missing script, a use of itself), the use() calls stand at different
+// offsets in their scripts (after text of different length, on different lines, behind multi-byte
+// characters). The report for every script: each entry lies in the script it names, and the entry for an
+// outer script is the position of ITS OWN use() call.
+func c17UseChainFaults(w *run.Worker) {
+	leaves := []string{"y = 1\nx = (1 +\n", "y = 1\n  nosuch(2)\n", "# c\n\n   use(\"gone.p\")\n", " use(\"l.p\")\n", "z = 1 / 0\n"}
+	pres := []string{"", "a = 1\n", "# é é é\n\n\t", "s = '''x\ny'''\nif true {\n      ", "é = \"日本\" ; "}
+	for li, leaf := range leaves {
+		for _, pm := range pres {
+			for _, psn := range pres {
+				if !w.Take() {
+					continue
+				}
+				closeB := func(pre string) string {
+					if strings.Contains(pre, "{") {
+						return "\n}\n"
+					}
+					return "\n"
+				}
+				srcs := map[string]string{
+					"s.p": psn + "use(\"m.p\")" + closeB(psn) + "p(1)\n",
+					"m.p": pm + "use(\"l.p\")" + closeB(pm),
+					"l.p": leaf,
+				}
+				w.Eval()
+				cs := c17Case{Part: "use-chain-fault", Source: srcs["s.p"] + c17SepM + srcs["m.p"] + c17SepL + srcs["l.p"]}
+				probs := c17UseChainCheck(srcs)
+				w.Outcome(fmt.Sprintf("use-chain-fault|%d|%d", li, len(probs)))
+				for _, pr := range probs {
+					w.Violate("C17:use-chain-fault:"+pr[0], pr[1]+"\n"+cs.Source, cs)
+				}
+			}
+		}
+	}
+}
+
+const c17SepM, c17SepL = "\n--- m.p ---\n", "\n--- l.p ---\n"
+
+// c17UseChainCheck loads the three scripts and returns (class, description) of everything wrong with the reports.
+func c17UseChainCheck(srcs map[string]string) (out [][2]string) {
+	_, errs := drv.Load(srcs)
+	for _, name := range []string{"s.p", "m.p", "l.p"} {
+		e, bad := errs[name]
+		if !bad {
+			out = append(out, [2]string{"accepted", name + " is accepted although l.p does not load"})
+			continue
+		}
+		pe, ok := e.(*errchain.PlError)
+		if !ok || pe == nil {
+			out = append(out, [2]string{"error-without-position", fmt.Sprintf("%s: %T %v", name, e, e)})
+			continue
+		}
+		first := pe.PosChain[0].File
+		if m := c17ErrPosMulti(pe, srcs, first); m != "" && !(strings.HasPrefix(m, "offset-out-of-source: entry 0") && pe.PosChain[0].Pos == len(srcs[first])) {
+			out = append(out, [2]string{strings.SplitN(m, ":", 2)[0], fmt.Sprintf("report for %s: %s\nerror: %s", name, m, pe.Error())})
+			continue
+		}
+		// the entries for s.p and m.p (when they are call sites, i.e. not the first entry) sit on their own use() call
+		for i, p := range pe.PosChain {
+			if i == 0 || (p.File != "s.p" && p.File != "m.p") {
+				continue
+			}
+			if want := strings.Index(srcs[p.File], "use("); p.Pos != want {
+				out = append(out, [2]string{"call-site-entry-not-on-the-use-call", fmt.Sprintf("report for %s: entry %d names %s at offset %d (%d:%d), its use() call is at offset %d\nerror: %s", name, i, p.File, p.Pos, p.Ln, p.Col, want, pe.Error())})
+			}
+		}
+		// the outermost entry of the report for s.p / m.p is that script itself
+		if last := pe.PosChain[len(pe.PosChain)-1]; name != "l.p" && last.File != name {
+			out = append(out, [2]string{"report-does-not-end-in-the-script-it-is-for", fmt.Sprintf("report for %s ends in %s\nerror: %s", name, last.File, pe.Error())})
+		}
+	}
+	return out
+}
